@@ -1223,11 +1223,34 @@ def canonical_func(fi):
                     return ast.fix_missing_locations(ast.copy_location(ast.Assign(targets=a_.targets, value=call), n))
             # a conditional re-binding `if c: v = E` is `v = E if c else v`
             if len(n.body) == 1 and not n.orelse and isinstance(n.body[0], ast.Assign) and len(n.body[0].targets) == 1 \
-                    and isinstance(n.body[0].targets[0], ast.Name) and n.body[0].targets[0].id not in names_in(n.test) \
+                    and isinstance(n.body[0].targets[0], ast.Name) \
                     and n.body[0].targets[0].id in bound_before.get(id(n), ()):
                 a = n.body[0]
                 v = ast.IfExp(test=n.test, body=a.value, orelse=ast.Name(id=a.targets[0].id, ctx=ast.Load()))
                 return ast.copy_location(ast.Assign(targets=a.targets, value=ast.copy_location(v, n)), n)
+            # loop unswitching backwards: `if c: for T in I: A  else: for T in I: B` with c untouched by the loops is
+            # `for T in I: if c: A else: B`
+            if len(n.body) == 1 and len(n.orelse) == 1 and isinstance(n.body[0], ast.For) and isinstance(n.orelse[0], ast.For):
+                fa, fb = n.body[0], n.orelse[0]
+                if not fa.orelse and not fb.orelse and isinstance(fa.target, ast.Name) and isinstance(fb.target, ast.Name) \
+                        and ast.dump(fa.iter) == ast.dump(fb.iter) and not any(isinstance(x, (ast.Call, ast.Subscript)) for x in ast.walk(n.test)):
+                    stored = {x.id for f_ in (fa, fb) for st in f_.body for x in ast.walk(st) if isinstance(x, ast.Name) and isinstance(x.ctx, ast.Store)}
+                    stored |= {fa.target.id, fb.target.id}
+                    leaves = any(isinstance(x, (ast.Break, ast.Return)) for f_ in (fa, fb) for st in f_.body for x in ast.walk(st))
+                    tb_used_in_a = fb.target.id != fa.target.id and any(isinstance(x, ast.Name) and x.id == fa.target.id for st in fb.body for x in ast.walk(st))
+                    if not (stored & names_in(n.test)) and not leaves and not tb_used_in_a:
+                        if fb.target.id != fa.target.id:
+                            old_, new_ = fb.target.id, fa.target.id
+
+                            class R_(ast.NodeTransformer):
+                                def visit_Name(self, x):
+                                    if x.id == old_:
+                                        return ast.copy_location(ast.Name(id=new_, ctx=x.ctx), x)
+                                    return x
+                            fb.body = [R_().visit(st) for st in fb.body]
+                        inner = ast.copy_location(ast.If(test=n.test, body=fa.body, orelse=fb.body), n)
+                        fa.body = [inner]
+                        return ast.fix_missing_locations(ast.copy_location(fa, n))
             # both arms do the same thing with one differing operand: the choice moves into the operand
             if len(n.body) == 1 and len(n.orelse) == 1:
                 a, b = n.body[0], n.orelse[0]
@@ -1308,6 +1331,45 @@ def canonical_func(fi):
                         n.target = ast.copy_location(ast.Name(id=elem, ctx=ast.Store()), n.target)
                         n.iter = xs
                         return n
+            # walking named sequences in step: `for a, b in zip(A, B)` is `for i in range(len(A)): a = A[i]; b = B[i]`
+            # (assumption, documented: the sequences zipped have one length - where they do not, the index form raises)
+            if isinstance(it, ast.Call) and isinstance(it.func, ast.Name) and it.func.id == 'zip' and 2 <= len(it.args) <= 4 and not it.keywords \
+                    and not any(isinstance(a_, ast.Starred) for a_ in it.args) and isinstance(n.target, ast.Tuple) \
+                    and len(n.target.elts) == len(it.args) and all(isinstance(t, ast.Name) for t in n.target.elts) and not n.orelse:
+                body_stores = {x.id for st in n.body for x in ast.walk(st) if isinstance(x, ast.Name) and isinstance(x.ctx, ast.Store)}
+                tnames = [t.id for t in n.target.elts]
+                seq_names = set().union(*[names_in(a_) for a_ in it.args])
+                first = it.args[0]
+                idx = '%s__idx' % (first.id if isinstance(first, ast.Name) else first.attr if isinstance(first, ast.Attribute) else 'zip%d' % n.lineno)
+                grows = any(isinstance(x, ast.Call) and isinstance(x.func, ast.Attribute) and x.func.attr in (
+                    'append', 'extend', 'insert', 'pop', 'remove', 'clear', 'sort', 'reverse') and any(ast.dump(x.func.value) == ast.dump(a_) for a_ in it.args)
+                    for st in n.body for x in ast.walk(st))
+                k_ = 1
+                while uses_in_function(idx) != 0 and k_ < 9:
+                    k_ += 1
+                    idx = idx.rstrip('0123456789') + str(k_)
+                if len(set(tnames)) == len(tnames) and not (seq_names & (body_stores | set(tnames))) and not (set(tnames) & body_stores) \
+                        and uses_in_function(idx) == 0 and not grows:
+                    # element names that live in this loop only are made unique to it (two loops may share them)
+                    for k_t, t in enumerate(list(tnames)):
+                        inside = sum(1 for x in ast.walk(n) if isinstance(x, ast.Name) and x.id == t)
+                        fresh = '%s__z%d' % (t, getattr(n, 'lineno', 0))
+                        # .. or in other loops that bind it themselves before reading it
+                        others = sum(sum(1 for x in ast.walk(f_) if isinstance(x, ast.Name) and x.id == t) for f_ in ast.walk(node)
+                                     if isinstance(f_, ast.For) and f_ is not n and any(isinstance(x, ast.Name) and x.id == t for x in ast.walk(f_.target))
+                                     and not any(f_ is y for y in ast.walk(n)) and not any(n is y for y in ast.walk(f_)))
+                        if inside + others == uses_in_function(t) and uses_in_function(fresh) == 0:
+                            for x in ast.walk(n):
+                                if isinstance(x, ast.Name) and x.id == t:
+                                    x.id = fresh
+                            tnames[k_t] = fresh
+                    binds = [ast.copy_location(ast.Assign(targets=[ast.Name(id=t, ctx=ast.Store())], value=ast.Subscript(
+                        value=copy_ast(a_), slice=ast.Name(id=idx, ctx=ast.Load()), ctx=ast.Load())), n) for t, a_ in zip(tnames, it.args)]
+                    n.target = ast.copy_location(ast.Name(id=idx, ctx=ast.Store()), n.target)
+                    n.iter = ast.copy_location(ast.Call(func=ast.Name(id='range', ctx=ast.Load()), args=[
+                        ast.Call(func=ast.Name(id='len', ctx=ast.Load()), args=[copy_ast(first)], keywords=[])], keywords=[]), it)
+                    n.body = binds + n.body
+                    return ast.fix_missing_locations(n)
             if isinstance(it, ast.Call) and isinstance(it.func, ast.Name) and it.func.id == 'enumerate' and len(it.args) == 1 and not it.keywords \
                     and isinstance(it.args[0], (ast.Name, ast.Attribute)) and isinstance(n.target, ast.Tuple) and len(n.target.elts) == 2 \
                     and all(isinstance(t, ast.Name) for t in n.target.elts):
@@ -1922,6 +1984,16 @@ def statement_shape(fi, positional=False):
     appearance instead of by their spelling (invariant under renaming, but an added local renumbers the later ones)."""
     import hashlib
     items = [x[1:] for x in statement_list(fi) if x[1] != 'else']
+
+    def unz(t):
+        # element names made unique per zip loop by canonical_func keep their spelling here
+        if isinstance(t, tuple):
+            return tuple(unz(x) for x in t)
+        if isinstance(t, str) and '__z' in t:
+            import re
+            return re.sub(r'__z\d+\b', '', t)
+        return t
+    items = [unz(x) for x in items]
     if positional:
         order = {}
 
